@@ -82,4 +82,33 @@ BatchClauses(c, o) ==
    BatchReplyComplete |-> (nc > 0 /\ o.flushes = 1) => o.flushSize = nc,
    BatchNoStrayResponses |-> o.singles = 0]
 HoldsBatch(c, o) == \A k \in DOMAIN BatchClauses(c, o) : BatchClauses(c, o)[k]
+
+\* ---- streamable HTTP (stateful endpoint): the transport pre-validates, so a request that C02 requires to be
+\* REJECTED may be answered with an HTTP 4xx instead of a JSON-RPC error; a valid request must get its response.
+HttpIdClasses == {"small", "neg", "maxint64", "strempty", "strunicode"}
+HttpShapeSet == { [t |-> "httpshape", era |-> e, method |-> m, hasId |-> h, idc |-> i, params |-> p, json |-> j] :
+                    e \in {"2025-03-26", "2025-06-18"}, m \in Methods, h \in BOOLEAN, i \in HttpIdClasses, p \in ParamClasses, j \in BOOLEAN }
+HttpShapes == {c \in HttpShapeSet : ~c.hasId => c.idc = "small"}
+MustReject(c) == Mandated(c) # {} /\ 0 \notin Mandated(c)
+HttpShapeClauses(c, o) ==
+  [NoCrash |-> o.panic = "",
+   SessionSurvives |-> o.alive,
+   NoReplyToNotification |-> ~c.hasId => (o.lines = 0 /\ (o.status = 202 \/ (o.status >= 400 /\ o.status < 500))),
+   ExactlyOneSameIdOr4xx |-> c.hasId =>
+        \/ (o.status = 200 /\ o.count = 1 /\ o.otherResp = 0)
+        \/ (MustReject(c) /\ o.status >= 400 /\ o.status < 500 /\ o.lines = 0),
+   Code |-> (c.hasId /\ o.status = 200 /\ o.count = 1 /\ Mandated(c) # {}) => o.code \in Mandated(c)]
+
+HttpBatchSet(n) == { [t |-> "httpbatch", era |-> "2025-03-26", members |-> ms, json |-> j] : ms \in SeqsUpTo(n), j \in BOOLEAN }
+HasUnk(ms) == \E i \in DOMAIN ms : ms[i] = "unk"
+HttpBatchClauses(c, o) ==
+  LET nc == NCalls(c.members) IN
+  [NoCrash |-> o.panic = "",
+   BatchNeverFailsConnection |-> o.alive,
+   \* every call of the batch is answered exactly once - or the whole POST is refused with a 4xx because a member
+   \* has to be rejected anyway
+   BatchAllAnswered |-> \/ (o.answered = nc /\ o.status = (IF nc = 0 THEN 202 ELSE 200))
+                        \/ (HasUnk(c.members) /\ o.status >= 400 /\ o.status < 500 /\ o.answered = 0),
+   \* once a batch is complete its ids are free again
+   BatchIdsReusable |-> o.reuseOk]
 =============================================================================
